@@ -13,6 +13,10 @@ import (
 	gnmi "github.com/openconfig/gnmi/proto/gnmi"
 )
 
+// maxDecimalPrecision is the largest number of fraction digits of a decimal64: 10^18 still fits its 64 bit digits.
+// Values with more could not be rendered (the arithmetic of the renderers overflows).
+const maxDecimalPrecision = 18
+
 // GnmiTypedValueToNativeType converts gnmi type based values in to native byte array changes
 func GnmiTypedValueToNativeType(gnmiTv *gnmi.TypedValue, modelPath *configapi.ReadWritePath) (*configapi.TypedValue, error) {
 
@@ -38,7 +42,10 @@ func GnmiTypedValueToNativeType(gnmiTv *gnmi.TypedValue, modelPath *configapi.Re
 	case *gnmi.TypedValue_BytesVal:
 		return configapi.NewTypedValueBytes(v.BytesVal), nil
 	case *gnmi.TypedValue_DecimalVal:
-		return configapi.NewTypedValueDecimal(v.DecimalVal.Digits, uint8(v.DecimalVal.Precision)), nil
+		if v.DecimalVal.GetPrecision() > maxDecimalPrecision {
+			return nil, fmt.Errorf("decimal64 precision %d is out of range (0-%d)", v.DecimalVal.GetPrecision(), maxDecimalPrecision)
+		}
+		return configapi.NewTypedValueDecimal(v.DecimalVal.GetDigits(), uint8(v.DecimalVal.GetPrecision())), nil
 	case *gnmi.TypedValue_FloatVal:
 		return configapi.NewTypedValueFloat(float64(v.FloatVal)), nil
 	case *gnmi.TypedValue_LeaflistVal:
@@ -79,8 +86,11 @@ func handleLeafList(gnmiLl *gnmi.TypedValue_LeaflistVal, typeOpt0 uint8) (*confi
 		case *gnmi.TypedValue_BytesVal:
 			bytesList = append(bytesList, u.BytesVal)
 		case *gnmi.TypedValue_DecimalVal:
-			digitsList = append(digitsList, u.DecimalVal.Digits)
-			precision = uint8(u.DecimalVal.Precision)
+			if u.DecimalVal.GetPrecision() > maxDecimalPrecision {
+				return nil, fmt.Errorf("decimal64 precision %d is out of range (0-%d)", u.DecimalVal.GetPrecision(), maxDecimalPrecision)
+			}
+			digitsList = append(digitsList, u.DecimalVal.GetDigits())
+			precision = uint8(u.DecimalVal.GetPrecision())
 		case *gnmi.TypedValue_FloatVal:
 			floatList = append(floatList, u.FloatVal)
 		default:
